@@ -477,6 +477,8 @@ func (g *Gen) accepted() bool {
 		switch cls {
 		case "rej:not-within-bounds", "rej:shift-arg", "rej:div-arg", "rej:bitwise-arg", "rej:inconsistent-fact":
 			g.recordReject(src, err)
+		case "rej:cannot-prove":
+			g.recordRejectedAssert(src, err)
 		}
 	}
 	return err == nil
@@ -533,6 +535,49 @@ func (g *Gen) recordReject(src string, err error) {
 	g.rejOps = append(g.rejOps, opLine{"facts " + factsSexpr(tm, facts) + " " + op + " " + ls + " " + rs, "reject"})
 }
 
+// recordRejectedAssert: a candidate plain `assert` (no `via`) that the real checker
+// could not prove becomes a correspondence op: the model must fail to prove it too,
+// under the facts the real checker held just before it.
+func (g *Gen) recordRejectedAssert(src string, err error) {
+	var ce *check.Error
+	if !errors.As(err, &ce) || g.fr.lastFile == nil || ce.Line == 0 || ce.Err == nil {
+		return
+	}
+	var stmt *a.Assert
+	for _, d := range g.fr.lastFile.TopLevelDecls() {
+		if d.Kind() != a.KFunc {
+			continue
+		}
+		for _, o := range d.AsFunc().Body() {
+			o.Walk(func(o *a.Node) error {
+				if o.Kind() == a.KAssert {
+					if _, ln := o.AsRaw().FilenameLine(); ln == ce.Line && o.AsAssert().Keyword() == t.IDAssert {
+						stmt = o.AsAssert()
+					}
+				}
+				return nil
+			})
+		}
+	}
+	if stmt == nil || stmt.Reason() != 0 {
+		return
+	}
+	tm := g.fr.tm
+	// only the failure of the assert itself (not of an obligation inside its condition)
+	if ce.Err.Error() != fmt.Sprintf("check: cannot prove %q", stmt.Condition().Str(tm)) {
+		return
+	}
+	cs, ok := condSexpr(tm, stmt.Condition())
+	if !ok {
+		return
+	}
+	facts, ok := g.fr.ProbeFacts(withProbe(src, int(ce.Line)))
+	if !ok {
+		return
+	}
+	g.rejOps = append(g.rejOps, opLine{"prove " + factsSexpr(tm, facts) + " " + cs, "fail"})
+}
+
 // try appends s to *blk; keeps it iff the checker accepts the program.
 func (g *Gen) try(blk *[]*Stmt, s *Stmt) bool {
 	*blk = append(*blk, s)
@@ -570,6 +615,40 @@ func (g *Gen) simpleStmt(sc *scope) *Stmt {
 	if len(g.conds) > 0 && g.rng.Chance(1, 5) {
 		if s := g.aimedAssert(sc); s != nil {
 			return s
+		}
+	}
+	if len(g.conds) > 0 && g.rng.Chance(1, 6) {
+		// a plain assert derived from a guarding comparison `l op r`: `l op' r` (or the
+		// mirrored `r op'' l`) for a random op' — provable iff op implies op'
+		// (opImpliesOp, or the bounds); a wrongly accepted one is false at run time.
+		c := g.conds[g.rng.Intn(len(g.conds))]
+		op := g.pick(cmpOps)
+		if g.rng.Bool() {
+			return &Stmt{Kind: "simple", Text: "assert " + c.l + " " + op + " " + c.r, Tag: "assert-guard"}
+		}
+		return &Stmt{Kind: "simple", Text: "assert " + c.r + " " + op + " " + c.l, Tag: "assert-guard"}
+	}
+	if len(g.conds) > 0 && len(tg) > 0 && g.rng.Chance(1, 6) {
+		// a difference of the two sides of a guarding comparison: its bounds come from
+		// the facts (bcheckExprXBinaryMinus), `l >= r` gives `l - r >= 0`, `l > r` gives >= 1
+		c := g.conds[g.rng.Intn(len(g.conds))]
+		var cands []Var
+		for _, v := range tg {
+			if v.T.Base == c.base {
+				cands = append(cands, v)
+			}
+		}
+		if len(cands) > 0 {
+			v := cands[g.rng.Intn(len(cands))]
+			l, r := c.l, c.r
+			if g.rng.Chance(1, 3) {
+				l, r = r, l
+			}
+			e := l + " - " + r
+			if g.rng.Chance(1, 3) {
+				e = "(" + e + ") - 1"
+			}
+			return &Stmt{Kind: "simple", Text: v.Name + " = " + e, Tag: "assign-guard-diff"}
 		}
 	}
 	switch {
